@@ -46,11 +46,11 @@ MksUnset == [set |-> FALSE, key |-> <<>>, mode |-> "enc", tw |-> ZeroSeq(8), r |
 (* key state embedded in CTR / parallel objects *)
 (* never keyed: the zero-allocated context.  For Mantis the tweak slot can still be set   *)
 (* (and matters: the 0-round cipher depends on it); keying resets it to zero.          *)
-KeyNone == [kd |-> "none", tw |-> ZeroSeq(8)]
+KeyNone(kind) == [kd |-> "none", tw |-> ZeroSeq(BS(kind))]
 
-CtrZeroed(kind) == [life |-> "zeroed", be |-> "gen", key |-> KeyNone,
+CtrZeroed(kind) == [life |-> "zeroed", be |-> "gen", key |-> KeyNone(kind),
                     pos |-> PosInit(BS(kind))]
-ParZeroed(kind) == [life |-> "zeroed", be |-> "gen", key |-> KeyNone]
+ParZeroed(kind) == [life |-> "zeroed", be |-> "gen", key |-> KeyNone(kind)]
 
 KsInit  == [k \in SKinds |-> [o \in Objs |-> KsUnset]]
 TksInit == [k \in SKinds |-> [o \in Objs |-> TksUnset(k)]]
@@ -96,10 +96,13 @@ KeyMantisTw(key, rr, tw, blk) ==
     IF key.kd = "none" THEN MCore(MkImage(MksUnset), tw, 0, blk)
     ELSE MCore(MKs(key.key, key.mode), tw, IF rr < 0 THEN key.r ELSE rr, blk)
 
-PlainKey(kind, key, len) ==
+(* tw: the remembered-tweak slot of the embedded tweakable schedule; a plain   *)
+(* key leaves it as it was (it only matters if set_tweak is called later)      *)
+PlainKeyT(kind, key, len, tw) ==
     LET tk == PadKey(kind, key, len)
-    IN  [kd |-> "plain", tk |-> tk,
+    IN  [kd |-> "plain", tk |-> tk, tw |-> tw,
          adds |-> SkAdds(CW(kind), tk, FALSE, FullRounds(CW(kind), Len(tk) \div BS(kind)))]
+PlainKey(kind, key, len) == PlainKeyT(kind, key, len, ZeroSeq(BS(kind)))
 
 TweakedKey(kind, pkey, tw) ==
     LET tk == tw \o pkey
@@ -331,7 +334,7 @@ TCtrInit ==
               ELSE ctr' = [ctr EXCEPT ![kind][o] =
                               [life |-> oc.life,
                                be |-> IF oc.ret = 1 THEN ev.be ELSE "gen",
-                               key |-> KeyNone, pos |-> PosInit(BS(kind))]]
+                               key |-> KeyNone(kind), pos |-> PosInit(BS(kind))]]
     /\ UNCHANGED <<env, ks, tks, mks, par>>
 
 (* cleanup: releases the block exactly once, wiped (C17); no-op otherwise *)
@@ -361,7 +364,7 @@ TCtrSetKey ==
                                 IF kind = "mantis"
                                 THEN [kd |-> "mantis", key |-> ev.key, mode |-> "enc",
                                       tw |-> ZeroSeq(8), r |-> ev.nr]
-                                ELSE PlainKey(kind, ev.key, ev.len),
+                                ELSE PlainKeyT(kind, ev.key, ev.len, ctr[kind][o].key.tw),
                               ![kind][o].pos = PosRekey(256, @)]
               ELSE UNCHANGED ctr
            /\ NoHeap(ev)
@@ -388,13 +391,18 @@ TCtrSetTweak ==
            valid == CtrLive(kind, o) /\ ValidTweakLen(kind, ev.len)
            tw    == PadTweak(kind, ev.tweak, ev.len, ev.tweak_null = 1)
        IN  /\ Chk("ctr_set_tweak ret", IF valid THEN 1 ELSE 0, ev.ret)
-           /\ valid => ctr[kind][o].key.kd \in {"none", "tweaked", "mantis"}
            /\ IF valid
               THEN LET old == ctr[kind][o].key
                        new == CASE old.kd = "tweaked" -> TweakedKey(kind, old.pkey, tw)
                                 [] old.kd = "mantis"  -> [old EXCEPT !.tw = tw]
-                                [] old.kd = "none" /\ kind = "mantis" -> [old EXCEPT !.tw = tw]
-                                [] OTHER              -> old
+                                [] old.kd = "none"    -> [old EXCEPT !.tw = tw]
+                                   \* never keyed: only the slot changes (0 rounds; Mantis' 0-round cipher uses it)
+                                [] old.kd = "plain"   ->
+                                   \* implementation-defined corner, modelled as what the code does: the
+                                   \* incremental update (old slot out, new tweak in) on a plain schedule
+                                   [old EXCEPT !.tw = tw,
+                                               !.adds = XorAdds(XorAdds(@, Tk1Contrib(CW(kind), old.tw, Len(@))),
+                                                                Tk1Contrib(CW(kind), tw, Len(@)))]
                    IN ctr' = [ctr EXCEPT ![kind][o].key = new,
                                          ![kind][o].pos = PosRekey(256, @)]
               ELSE UNCHANGED ctr
@@ -456,7 +464,7 @@ TParInit ==
               ELSE par' = [par EXCEPT ![kind][o] =
                               [life |-> oc.life,
                                be |-> IF oc.ret = 1 THEN ev.be ELSE "gen",
-                               key |-> KeyNone]]
+                               key |-> KeyNone(kind)]]
     /\ UNCHANGED <<env, ks, tks, mks, ctr>>
 
 TParCleanup ==
